@@ -543,8 +543,8 @@ func keepaliveScenarios(tier string) []weighted {
 	var out []weighted
 	add := func(c kcfg) {
 		nz := 0
-		for i, g := range c.gaps {
-			if g > 0 || i == 0 {
+		for i, st := range c.steps {
+			if st.gap > 0 || i == 0 {
 				nz++
 			}
 		}
@@ -633,7 +633,15 @@ func keepaliveScenarios(tier string) []weighted {
 							continue
 						}
 					}
-					add(kcfg{mode: m, exec: e, ws: ws, gaps: gl, p: p, d: d})
+					def := byte('Q')
+					if ws {
+						def = 'T'
+					}
+					var steps []kstep
+					for _, g := range gl {
+						steps = append(steps, kstep{g, def})
+					}
+					add(kcfg{mode: m, exec: e, ws: ws, steps: steps, p: p, d: d})
 					// the same list with a handler that takes virtual time (3 of 7 s / 2 of 4 s): the
 					// keep-alive time must count from the end of the exchange
 					if (len(gl) == 1 && (thorough || !ws || m == ekit.LT)) || (len(gl) == 2 && m == ekit.LT && (thorough || (gl[0] == 3 || (gl[0] == 0 && gl[1] != 8)))) {
@@ -650,10 +658,62 @@ func keepaliveScenarios(tier string) []weighted {
 						if thorough && ws && len(gl) == 2 {
 							continue
 						}
-						add(kcfg{mode: m, exec: e, ws: ws, gaps: gl, work: work, p: wp, d: wd})
+						add(kcfg{mode: m, exec: e, ws: ws, steps: steps, work: work, p: wp, d: wd})
 					}
 				}
 			}
+		}
+	}
+	// the kind of inbound activity. Gaps are chosen so that a renewal is observable (a unit
+	// handled at time 0 moves nothing) and so that the next-to-last unit decides when the
+	// connection has to go: WebSocket keep-alive 4 s, HTTP 7 s.
+	type kl struct {
+		ws    bool
+		steps string // "gap:kind gap:kind ..."
+		quick bool
+		work  int
+	}
+	klists := []kl{
+		// every kind on its own, 2 s after the upgrade: the close moves from +4s to +6s
+		{true, "2:B", true, 0}, {true, "2:I", true, 0}, {true, "2:O", true, 0},
+		// a control frame after a data message, two control frames: only the last unit counts
+		{true, "2:T 3:I", true, 0}, {true, "2:I 3:O", true, 0}, {true, "3:O 3:T", false, 0}, {true, "2:I 3:I", false, 0}, {true, "2:B 2:B", false, 0},
+		// control frames arriving exactly at / after the deadline
+		{true, "4:I", true, 0}, {true, "5:I", false, 0}, {true, "4:O", false, 0}, {true, "5:O", false, 0}, {true, "4:B", false, 0}, {true, "0:I", false, 0}, {true, "0:O", false, 0},
+		// a control-frame handler that takes virtual time: the keep-alive time counts from its end
+		{true, "2:I", true, 2}, {true, "2:O", false, 2},
+		// fragmented message: first fragment at +2s (completes nothing), last fragment 1 s later
+		// (message handled at +3s: close at +7s); first fragment alone; last fragment too late
+		{true, "2:F 1:C", true, 0}, {true, "2:F", true, 0}, {true, "2:F 3:C", false, 0}, {true, "2:F 2:C", false, 0},
+		{true, "2:F 1:M 1:C", false, 0}, {true, "1:F 2:I 2:C", true, 0}, {true, "2:T 1:F 2:C", false, 0}, {true, "2:F 1:C", false, 2},
+		// HTTP: a POST whose head arrives at +3s and whose body arrives 2 s later (response at +5s:
+		// close at +12s), 5 s later (after the keep-alive time counted from the accept), or never
+		{false, "3:H 2:Y", true, 0}, {false, "3:H", true, 0}, {false, "3:H 5:Y", true, 0}, {false, "3:H 4:Y", false, 0}, {false, "0:H 3:Y", false, 0},
+		{false, "3:Q 3:H 2:Y", false, 0}, {false, "3:H 2:Y 3:Q", false, 0}, {false, "3:H 2:Y", false, 3},
+	}
+	for _, x := range klists {
+		if !x.quick && !thorough {
+			continue
+		}
+		var steps []kstep
+		for _, f := range strings.Fields(x.steps) {
+			var st kstep
+			if _, err := fmt.Sscanf(f, "%d:%c", &st.gap, &st.kind); err != nil {
+				panic("c16: bad step list " + x.steps)
+			}
+			steps = append(steps, st)
+		}
+		modes := []ekit.Mode{ekit.LT}
+		if thorough && len(steps) == 1 {
+			modes = ekit.Modes
+		}
+		for _, m := range modes {
+			// free choices (every order at blocking points, ties) plus one offered mid-exchange firing
+			p, d := 0, 1
+			if thorough && len(steps) == 1 && x.work == 0 {
+				p = 1
+			}
+			add(kcfg{mode: m, exec: "go", ws: x.ws, steps: steps, work: x.work, p: p, d: d})
 		}
 	}
 	return out
